@@ -263,7 +263,9 @@ def run(ck):
                         env = gcalls[0][5]
                         ck.check(num_term(env.get("k")) == T.sym("k"), "C05.R2", inst + ":k forwarded", ssite, "k is not forwarded unchanged to gibbs_steps")
                         ist = env.get("initial_state")
-                        ck.check(isinstance(ist, VTens) and ist.obj is v0.obj, "C05.R2", inst + ":initial_state forwarded", ssite, "initial_state is not forwarded to gibbs_steps")
+                        # the chains start from the caller's state: that tensor itself, or (when it must be preserved) a copy of it
+                        same_vals = isinstance(ist, VTens) and (ist.obj is v0.obj or (not ow and len(gcalls[0]) > 7 and gcalls[0][7].get("initial_state") == T.sym("init")))
+                        ck.check(same_vals, "C05.R2", inst + ":initial_state forwarded", ssite, "initial_state is not forwarded to gibbs_steps")
                         okw, w = const_of(env.get("overwrite"))
                         if okw and w is ow:  # evidence only: what decides is the effect on the caller's tensor (below), however the flag travels
                             ck.ok("C05.R3", inst + ":overwrite forwarded", ssite)
